@@ -1,3 +1,4 @@
+mod btree;
 mod budget;
 mod codec;
 mod commitorder;
@@ -44,6 +45,8 @@ fn main() {
         "crash-run" => crash::run(&args),
         "commit-order" => commitorder::run(&args),
         "wal-faults" => wal::fault_sweep(&args),
+        "btree-replay" => btree::replay(&args),
+        "leaf-search" => btree::leaf_search(&args),
         "robust-run" => robust::run(&args),
         "robust-child" => robust::child(&args),
         "corrupt-run" => corrupt::run(&args),
